@@ -206,11 +206,13 @@ func c38SysMutants(rt *c38Route, variant int, valid c38Req, st *c38State) []c38M
 				continue
 			}
 			seenType[t] = true
+			c38UltraLight = true
 			c38TreeMutants(root, 3, 1, func(class, desc string, b []byte) {
 				nl := append([]string(nil), st.export...)
 				nl[li] = string(b)
 				body("import_"+class, fmt.Sprintf("log line %d (%s): %s", li, t, desc), []byte(strings.Join(nl, "\n")+"\n"))
 			})
+			c38UltraLight = false
 		}
 		add("import_nonempty_ledger", "valid export imported into the non-empty ledger l1", valid.setParam("ledger", "l1"))
 		c38RawBodyMutants(valid.Body, body)
@@ -357,7 +359,7 @@ var c38BadSchemas = []string{
 	`{"chart":{"a:b":{}}}`, `{"chart":{"":{}}}`, `{"chart":{"a b":{}}}`, `{"chart":{".self":{}}}`, `{"chart":{"users":{".self":1}}}`, `{"chart":{"users":{".self":null}}}`, `{"chart":{"users":{".metadata":[]}}}`, `{"chart":{"users":{".metadata":{"k":1}}}}`, `{"chart":{"users":{".metadata":{"k":{"default":1}}}}}`,
 	`{"chart":{"users":{".rules":{"x":1}}}}`, `{"chart":{"users":{".rules":1}}}`, `{"chart":{"users":"x"}}`, `{"chart":{"users":null}}`, `{"chart":{"users":[]}}`, `{"chart":{"users":1}}`, `{"chart":{"$":{}}}`, `{"chart":{"users":{"$":{}}}}`, `{"chart":{"users":{"$id":{"$id2":{"$id3":{}}}}}}`,
 	`{"chart":null}`, `{"chart":[]}`, `{"chart":"x"}`, `{"chart":{}}`, `{}`, `{"transactions":{}}`, `{"chart":{"world":{".metadata":{"k":{}}, "sub":{}}}}`, `{"chart":{"users":{".unknown":1}}}`, `{"chart":{"é":{}}}`, `{"chart":{"A":{}}}`, `{"chart":{"a-b":{}}}`, `{"chart":{"a_b":{}}}`, `{"chart":{"0":{}}}`,
-	`{"chart":` + strings.Repeat(`{"a":`, 2000) + `{}` + strings.Repeat(`}`, 2000) + `}`,
+	`{"chart":` + strings.Repeat(`{"a":`, 300) + `{}` + strings.Repeat(`}`, 300) + `}`,
 	`{"chart":{"world":{}},"transactions":{"T":{"script":123}}}`, `{"chart":{"world":{}},"transactions":{"T":{}}}`, `{"chart":{"world":{}},"transactions":{"T":{"script":"bad"}}}`, `{"chart":{"world":{}},"transactions":{"T":{"script":"send [USD 1] (\n source=@world\n destination=@b\n)","runtime":"zzz"}}}`,
 	`{"chart":{"world":{}},"transactions":{"":{"script":"send [USD 1] (\n source=@world\n destination=@b\n)"}}}`, `{"chart":{"world":{}},"transactions":{"T":null}}`, `{"chart":{"world":{}},"transactions":[]}`, `{"chart":{"world":{}},"transactions":"x"}`, `{"chart":{"world":{}},"transactions":{"T":{"script":"send [USD 1] (\n source=@world\n destination=@b\n)","runtime":"experimental-interpreter"}}}`,
 	`{"chart":{"world":{}},"queries":{"Q":{"resource":"junk"}}}`, `{"chart":{"world":{}},"queries":{"Q":{}}}`, `{"chart":{"world":{}},"queries":{"Q":null}}`, `{"chart":{"world":{}},"queries":[]}`, `{"chart":{"world":{}},"queries":{"Q":{"resource":"accounts","params":{"sort":"junk:asc"}}}}`, `{"chart":{"world":{}},"queries":{"Q":{"resource":"accounts","params":{"sort":"metadata:asc"}}}}`,
@@ -541,6 +543,14 @@ func c38RandNode(rng *rand.Rand, x *c38N, depth int) *c38N {
 }
 
 func c38RandMutant(rng *rand.Rand, rt *c38Route, valid c38Req, st *c38State) c38Mut {
+	m := c38RandMutant0(rng, rt, valid, st)
+	if rt.Body == "filter" && c38Channel(m.Class) == "body" {
+		m.Class = "filter_" + m.Class // the body of these routes IS the filter
+	}
+	return m
+}
+
+func c38RandMutant0(rng *rand.Rand, rt *c38Route, valid c38Req, st *c38State) c38Mut {
 	hasBody := !valid.NoBody && valid.Body != nil
 	for tries := 0; tries < 20; tries++ {
 		switch rng.Intn(12) {
@@ -608,7 +618,14 @@ func c38RandMutant(rng *rand.Rand, rt *c38Route, valid c38Req, st *c38State) c38
 			default:
 				v = c38RandString(rng)
 			}
-			return c38Mut{"random_param", fmt.Sprintf("%s=%q", name, c38Trunc(v, 40)), valid.setQuery(name, v)}
+			cls := "random_param"
+			switch name {
+			case "cursor":
+				cls = "random_cursor"
+			case "query":
+				cls = "random_filter"
+			}
+			return c38Mut{cls, fmt.Sprintf("%s=%q", name, c38Trunc(v, 40)), valid.setQuery(name, v)}
 		case 6: // random filter
 			if rt.Body != "filter" {
 				continue
